@@ -377,8 +377,15 @@ def gibbs_registry():
 
     def stmt_hook(ip, st, frame):
         import ast
-        if isinstance(st, ast.With) and frame.qualname == 'tempo.GibbsTempo.compute':
-            ip.ghost['gibbs']['s_entry'] = ip.lookup_name('self', frame).fields['_backend_instance'].fields['step']
+        if isinstance(st, (ast.With, ast.Try, ast.While, ast.For)) and frame.qualname == 'tempo.GibbsTempo.compute' \
+                and not ip.ghost['gibbs'].get('loop_reached'):
+            step = ip.lookup_name('self', frame).fields['_backend_instance'].fields['step']
+            if step is not None:
+                ip.ghost['gibbs']['s_entry'] = step
+            if isinstance(st, (ast.While, ast.For)) and ip.ghost['gibbs'].get('loops_seen', 0) >= 1:
+                ip.ghost['gibbs']['loop_reached'] = True
+            if isinstance(st, (ast.While, ast.For)):
+                ip.ghost['gibbs']['loops_seen'] = ip.ghost['gibbs'].get('loops_seen', 0) + 1
     R.stmt_hook = stmt_hook
     R.ghost_G = G
     return R
